@@ -104,7 +104,7 @@ impl Rule {
     pub fn is_benign(&self) -> bool {
         matches!(
             self.kind.as_str(),
-            "short_read" | "short_write" | "eintr_read" | "eintr_write" | "eintr_open" | "clockjump" | "statsize" | "tty"
+            "short_read" | "short_write" | "eintr_read" | "eintr_write" | "eintr_open" | "clockjump" | "statsize" | "tty" | "devno"
         )
     }
 }
